@@ -62,6 +62,7 @@ def fn_cases(rng, tier):
                     "state": rng.choice([None, ""] + VALS), "kwargs": kw, "fragment": rng.choice(["", "frag"])})
     for _ in range(n):
         out.append({"op": "secret_post", "body": rng.choice(EXISTING), "client_id": rng.choice(VALS), "client_secret": rng.choice(VALS + [""])})
+        out.append({"op": "revoke_request", "body": rng.choice(EXISTING + ["resource=a&resource=b", "token=old&aud=x&aud=y"]), "token": rng.choice(VALS), "hint": rng.choice([None, "access_token", "refresh_token", "a b&c"])})
         out.append({"op": "jwt_auth_fn", "body": rng.choice(EXISTING), "client_id": rng.choice(VALS), "method": rng.choice(["client_secret_jwt", "private_key_jwt"])})
         out.append({"op": "none", "body": rng.choice(EXISTING), "client_id": rng.choice(VALS), "method": rng.choice(["POST", "GET"])})
         out.append({"op": "basic", "client_id": rng.choice([v for v in ASCII_BASIC if ":" not in v]), "client_secret": rng.choice(ASCII_BASIC), "domain": True})
@@ -216,13 +217,37 @@ def impl(c):
         u = urlparse(r)
         return {"out": u.query.encode().hex(), "parsed": pairs(u.query.encode()), "_rest": [u.scheme, u.netloc, u.path, u.fragment],
                 "_server": _server_query(r)}
+    if op == "revoke_request":
+        from authlib.oauth2.rfc7009.parameters import prepare_revoke_token_request
+        body, _ = prepare_revoke_token_request(c["token"], c["hint"], c["body"], None)
+        return {"parsed": pairs(body.encode())}
     if op == "jwt_auth_fn":
         from authlib.oauth2.rfc7523 import ClientSecretJWT, PrivateKeyJWT
         url = "https://as.example/token"
         meth = ClientSecretJWT(url) if c["method"] == "client_secret_jwt" else PrivateKeyJWT(url)
         secret = "s" * 40 if c["method"] == "client_secret_jwt" else _rsa()[0]
-        _, h, body = ClientAuth(c["client_id"], secret, meth).prepare("POST", url, {}, c["body"])
-        return {"parsed": pairs(body.encode())}
+        auth = ClientAuth(c["client_id"], secret, meth)
+        _, h, body = auth.prepare("POST", url, {}, c["body"])
+        # a second token-endpoint request from the same client object: read back by the server half with its jti store (replay protection)
+        _, _, body2 = auth.prepare("POST", url, {}, c["body"])
+        from authlib.oauth2.rfc7523 import JWTBearerClientAssertion
+        seen = set()
+
+        class JA(JWTBearerClientAssertion):
+            def validate_jti(self, claims, jti):
+                fresh = jti not in seen
+                seen.add(jti)
+                return fresh
+        ja = JA(url)
+        key = secret if c["method"] == "client_secret_jwt" else _rsa()[1]
+        verdicts = []
+        for b in (body, body2):
+            try:
+                cl = ja.process_assertion_claims(dict(parse_qsl(b, keep_blank_values=True)).get("client_assertion"), lambda headers, payload: key)
+                verdicts.append(cl.get("sub"))
+            except Exception as e:
+                verdicts.append("refused: " + str(getattr(e, "description", e))[:60])
+        return {"parsed": pairs(body.encode()), "two_requests": verdicts}
     if op == "secret_post":
         _, h, body = ClientAuth(c["client_id"], c["client_secret"], "client_secret_post").prepare("POST", "https://as.example/token", {}, c["body"])
         return {"out": body.encode().hex(), "parsed": pairs(body.encode())}
@@ -656,7 +681,15 @@ def oracle(c, out):
             bad("the library's server half (OAuth2Request) reads different parameters from the authorization URL than the client put there", kind="server-parse")
         if out["_rest"] != ["https", "as.example", "/authorize", c["fragment"]]:
             bad("another URL component was altered", kind="component")
+    elif op == "revoke_request":
+        want = pairs(c["body"].encode()) + [[hx("token"), hx(c["token"])]] + ([[hx("token_type_hint"), hx(c["hint"])]] if c["hint"] else [])
+        if out["parsed"] != want:
+            bad(f"revocation / introspection request body: adding token (and hint) to {c['body']!r} gives {[(bytes.fromhex(k).decode('utf-8', 'replace'), bytes.fromhex(v).decode('utf-8', 'replace')) for k, v in out['parsed']]}",
+                kind="roundtrip", detail="revoke-body")
     elif op == "jwt_auth_fn":
+        if out["two_requests"] != [c["client_id"], c["client_id"]]:
+            bad(f"{c['method']}: two token-endpoint requests prepared by one client object are read by the server half (with its jti store) as {out['two_requests']}, "
+                f"the client is {c['client_id']!r} both times", kind="auth-altered", detail="second-request")
         exist = pairs(c["body"].encode())
         got = out["parsed"]
         names = [bytes.fromhex(k).decode() for k, _ in got[len(exist):]]
